@@ -94,7 +94,7 @@ def run_family(ctx, W, out, nsched, terms):
             if ticks and others:
                 return r2.choice(ticks) if r2.random() < bias * 0.8 else r2.choice(others)
             return r2.randrange(len(en))
-        trace, errors, complete, drv = SC.explore(W, out, ch, maxlen=1500, slow_pm=(j % 2 == 1))
+        trace, errors, complete, drv = SC.explore(W, out, ch, maxlen=1500, slow_pm=(j % 2 == 1), with_cdb=(j % 4 == 2))
         evs = [t[0] for t in trace]
         case = dict(base, schedule=evs)
         ctx.case([W, sorted(out.items()), evs], len(W) >= 2 and len(evs) > 3 * len(W))
